@@ -48,9 +48,24 @@ def close_codes(ctx):
                       {"kind": "closecode", **e})
 
 
+def concurrent_readers(ctx):
+    """The sequencing rules hold for the message a reader assembles: two threads in recv() on one connection, legal fragmented
+    messages - nobody is handed another reader's fragment as an "illegal frame", nothing legal is refused (schedules of C12's world)."""
+    from . import c12
+    tier = ctx.tier
+    two = wire.sframe(1, b"m1", 0) + wire.sframe(0, b"-x", 1) + wire.sframe(2, b"\x01", 0) + wire.sframe(9, b"p") + wire.sframe(0, b"\x02", 1) \
+        + wire.sframe(1, b"m3")
+    scs = [dict(name="c05_recv2", receivers=2, stream=two, recv_calls=3, read_cap=None, senders=[], bound=2, max_runs=200 if tier == "quick" else 2500),
+           dict(name="c05_recv2_cap1", receivers=2, stream=two, recv_calls=3, read_cap=1, senders=[], bound=1, max_runs=150 if tier == "quick" else 2500),
+           dict(name="c05_recv2_lines", receivers=2, stream=two, recv_calls=3, read_cap=None, senders=[], bound=0, max_runs=1,
+                line_level=2 if tier == "quick" else 1)]
+    c12.validate_schedules(ctx, "C05", scs, "c05_sched", own=("C12", "C05"))
+
+
 def main(ctx):
     recv_common.run_for(ctx, "C05")
     close_codes(ctx)
+    concurrent_readers(ctx)
     ctx.trusted += ["TLC 1.8 / CommunityModules", "harness: scripted transport + projection (vf/recvworld.py)"]
 
 
